@@ -85,7 +85,7 @@ fn check_pretty(row: &[u8], toks: &[Tok]) -> Result<(), String> {
     }
     let mut unit: Option<Vec<u8>> = None;
     let mut depth: usize = 0;
-    let mut expect_indent = |ws: &[u8], d: usize, what: &str, unit: &mut Option<Vec<u8>>| -> Result<(), String> {
+    let expect_indent = |ws: &[u8], d: usize, what: &str, unit: &mut Option<Vec<u8>>| -> Result<(), String> {
         if ws.first() != Some(&b'\n') {
             return Err(format!("pretty style: {} is not on its own line", what));
         }
